@@ -100,3 +100,20 @@ Qed.
 Definition zlist_eqb := list_eqb Z.eqb.
 Lemma zlist_eqb_eq a b : zlist_eqb a b = true <-> a = b.
 Proof. apply list_eqb_eq. intros; apply Z.eqb_eq. Qed.
+
+(* firstn / skipn with a Z count that may be astronomically large (a u32): never builds a huge nat *)
+Definition skipnZ {A} (n : Z) (l : list A) : list A :=
+  if Z.of_nat (length l) <=? n then [] else skipn (Z.to_nat n) l.
+Definition firstnZ {A} (n : Z) (l : list A) : list A :=
+  if Z.of_nat (length l) <=? n then l else firstn (Z.to_nat n) l.
+
+Lemma skipnZ_skipn {A} n (l : list A) : skipnZ n l = skipn (Z.to_nat n) l.
+Proof.
+  unfold skipnZ. destruct (Z.of_nat (length l) <=? n) eqn:E; [|reflexivity].
+  apply Z.leb_le in E. symmetry. apply skipn_all2. lia.
+Qed.
+Lemma firstnZ_firstn {A} n (l : list A) : firstnZ n l = firstn (Z.to_nat n) l.
+Proof.
+  unfold firstnZ. destruct (Z.of_nat (length l) <=? n) eqn:E; [|reflexivity].
+  apply Z.leb_le in E. symmetry. apply firstn_all2. lia.
+Qed.
